@@ -32,8 +32,21 @@ Known finding (open, narrow sig ``C27.invalid_range_honoured.unicode_space``): p
 with NBSP (0xA0) or NEL (0x85) are honoured because ``str.strip()`` strips Unicode whitespace
 (findings_inbox/C27-range-unicode-space.md).
 
-Sensitivity (quick tier, seed 1, one mutant at a time on a scratch copy):
-  see the end of this docstring — filled in after running.
+A second open finding (sig ``C27.invalid_range_honoured.no_dash``): ``bytes=5`` (no "-") is honoured as
+``bytes=5-`` (findings_inbox/C27-range-no-dash.md).  Replays: replays/C27/F16-*.json fail on the pre-fix
+snapshot 59274db and pass now; replays/C27/open-*.json reproduce the two open findings.
+
+Sensitivity (quick tier, seed 1, one mutant at a time on a scratch copy; all caught):
+  M0 pre-fix snapshot 59274db with replays/C27 moved away (search only)
+       -> caught: C27.invalid_range_honoured (bytes=+0-0) and C27.grammar_invalid_honoured (bytes=U+0661)
+  M1 httputil._parse_request_range: `end += 1` dropped          -> caught (C27.range_selection, bytes=0-0 on n=1 -> 416)
+  M2 web.StaticFileHandler.get: `start >= size` -> `start > size` -> caught (C27.range_selection, bytes=0-0 on n=0 -> 200)
+  M3 httputil._get_content_range: inclusive end off by one      -> caught (C27.content_range_values, bytes 5-30/30)
+  M4 web.get_content ignores `end`                               -> caught (C27.framing: no well-formed response)
+  M5 should_return_304: `if_since >= modified` -> `>`            -> caught (C27.conditional_not_304, IMS == mtime)
+  M6 suffix clamp `start = 0` dropped                            -> caught (C27.server_error, bytes=-1 on n=0 -> 500)
+  M7 check_etag_header: strong comparison only                   -> caught (C27.conditional_not_304, W/"etag")
+  M8 Content-Length only set for GET (HEAD gets 0)               -> caught (C27.head_differs)
 """
 import email.utils
 import re
@@ -48,7 +61,7 @@ from vlib.httpharness import roundtrip
 from vlib.httpref import RefError, parse_responses
 
 PROPERTY = "C27"
-READY = False
+READY = True
 RULE = (
     "Hypothesis: file size n (0..300, 65536..70000) x Range built from a valid spec with positions around "
     "{0,1,n-1,n,n+1,2n,huge} then mutated at one of 30 named positions (or raw soup) x If-None-Match (9 forms) x "
